@@ -26,7 +26,7 @@ ASSUMPTIONS = ['"run to convergence" = consistency residual <= 1e-8 (probability
                'dual-solver agreement judged at 1e-6 and only when the reference\'s own gradient norm is <= 1e-8',
                'every region, including derived intersections, has counting number 1 (the convexified free energy of the code)']
 PLAN = {
-    'quick': dict(cases=64, budget_s=90, case_timeout=600, min_cases=20),
+    'quick': dict(cases=64, budget_s=150, case_timeout=600, min_cases=12),
     'thorough': dict(cases=900, budget_s=1200, case_timeout=1200, min_cases=150),
 }
 STRUCTS = ['tree', 'loop', 'triangle', 'all_pairs', 'dense_triples', 'nested', 'hyper', 'star']
